@@ -136,6 +136,25 @@ CLAIMED = {
         "modelled by its state effect; harness. No axioms.",
         "DESIGN.md section 5, C09",
     ),
+    "C10": (
+        "Coq/MathComp proofs about a hand-written executable evaluator of the expression AST in the vocabulary's algebra and "
+        "about the create_pointer selection loop (induction over the candidate list); random ASTs / populate strings / "
+        "scripted candidate streams compared with the implementation inside Coq",
+        "Theorems for every commutative ring resp. real domain: special names evaluate to the vocabulary's own algebra's "
+        "elements; a bare number is that multiple of the vocabulary's identity; names denote entries and an unknown name is a "
+        "parse error; * + - ~ are binding / superposition / negation / the algebra's inverse on the sub-expression values "
+        "(errors propagate); create_pointer on an empty vocabulary returns the first candidate, otherwise the first candidate "
+        "whose largest similarity is below the bound (no warning), otherwise a least-similar candidate together with a warning "
+        "(None only when no attempt is allowed). populate's left-to-right item processing is the fold proved in C09. "
+        "Tie: 60 (thorough 500) random ASTs per algebra and d with random whitespace, number-only and special-name "
+        "expressions, error classes (unknown name, non-pointer, malformed), populate strings with all three item forms "
+        "checked item by item, 630 create_pointer scripts (bounds hitting similarities exactly, attempts 0..6). One defect "
+        "(number clause) found and repaired.",
+        "Trusted: Coq kernel + vm_compute; Model/Parse.v; CPython's text->AST step (the model evaluates the AST the text was "
+        "printed from); sums with different irrational factors are skipped (counted in the evidence); .unitary() is "
+        "relation-checked in C12, not here.",
+        "DESIGN.md section 5, C10",
+    ),
 }
 
 NOT_YET = "not yet built in this revision of /verif (design in DESIGN.md section 5); no check is claimed"
